@@ -114,6 +114,36 @@ pub fn c16(j: &mut Judge, v: &StepView) {
             (Err(_), None) => {}
         }
     }
+    // an order that this very request completely filled, cancelled, expired or rejected (by the
+    // reference model, not by what is left in storage) must no longer be answered
+    if v.out.accepted() && v.exp.verdict == Verdict::Accept && !v.exp.alts.is_empty() {
+        for id in &ask_ids {
+            if v.before.asks.contains_key(id) && v.exp.alts.iter().all(|e| !e.asks.contains_key(id)) {
+                if let Ok(bytes) = w.query(&serde_json::to_vec(&wire::q_get_ask(id)).unwrap()) {
+                    j.violate(
+                        Prop::C16,
+                        "query-answers-for-closed-order",
+                        &format!("get_ask:{}", v.req.kind()),
+                        format!("ask {} was completely {} yet the query still returns {}", id, v.req.kind(), String::from_utf8_lossy(&bytes)),
+                    );
+                }
+                j.nontrivial = true;
+            }
+        }
+        for id in &bid_ids {
+            if v.before.bids.contains_key(id) && v.exp.alts.iter().all(|e| !e.bids.contains_key(id)) {
+                if let Ok(bytes) = w.query(&serde_json::to_vec(&wire::q_get_bid(id)).unwrap()) {
+                    j.violate(
+                        Prop::C16,
+                        "query-answers-for-closed-order",
+                        &format!("get_bid:{}", v.req.kind()),
+                        format!("bid {} was completely {} yet the query still returns {}", id, v.req.kind(), String::from_utf8_lossy(&bytes)),
+                    );
+                }
+                j.nontrivial = true;
+            }
+        }
+    }
     if w.store.map != before_bytes || w.store.writes != before_writes {
         j.violate(Prop::C16, "query-modified-state", "any", "storage changed while only queries ran".into());
     }
@@ -346,6 +376,41 @@ pub fn c17(j: &mut Judge, v: &StepView) {
                     let ambiguous = v.exp.alts.iter().filter(|e| crate::model::prune(e.flows.clone()) == flows_of_moves(&v.out.moves) && e.bids == v.after.bids).count() > 1;
                     if !ambiguous && attr_num(v, "bid_fee") != Some(alt.bid_fee_paid) {
                         complaints.push(("match-bid-fee", format!("reported bid_fee {:?}, paid {}", v.out.attr("bid_fee"), alt.bid_fee_paid)));
+                    }
+                }
+            }
+            // model-free: when a fee account is no other party of the match, the reported fee is
+            // what that account received
+            if let (Some(a), Some(b), Some(cfg)) = (v.before.asks.get(ask_id), v.before.bids.get(bid_id), &v.before.cfg) {
+                let seller = match &a.class {
+                    AskClass::Ready { approver, .. } => approver.clone(),
+                    _ => a.owner.clone(),
+                };
+                let afa = cfg.ask_fee.as_ref().map(|f| f.0.clone());
+                let bfa = cfg.bid_fee.as_ref().map(|f| f.0.clone());
+                let real = flows_of_moves(&v.out.moves);
+                let receipt = |acc: &str| real.get(&(acc.to_string(), b.quote_denom.clone())).copied().unwrap_or_else(Int256::zero);
+                let distinct_denoms = a.base != b.quote_denom && cfg.base != b.quote_denom;
+                if let Some(acc) = &afa {
+                    if distinct_denoms && acc != &b.owner && acc != &seller && Some(acc) != bfa.as_ref() {
+                        if let Some(rep) = attr_num(v, "ask_fee") {
+                            if receipt(acc) != Int256::from(rep) {
+                                complaints.push(("match-ask-fee", format!("reported ask_fee {} but the ask-fee account received {}", rep, receipt(acc))));
+                            }
+                        } else {
+                            complaints.push(("match-ask-fee", format!("ask_fee attribute {:?} is not an amount", v.out.attr("ask_fee"))));
+                        }
+                    }
+                }
+                if let Some(acc) = &bfa {
+                    if distinct_denoms && acc != &b.owner && acc != &seller && Some(acc) != afa.as_ref() {
+                        if let Some(rep) = attr_num(v, "bid_fee") {
+                            if receipt(acc) != Int256::from(rep) {
+                                complaints.push(("match-bid-fee", format!("reported bid_fee {} but the bid-fee account received {}", rep, receipt(acc))));
+                            }
+                        } else {
+                            complaints.push(("match-bid-fee", format!("bid_fee attribute {:?} is not an amount", v.out.attr("bid_fee"))));
+                        }
                     }
                 }
             }
